@@ -67,6 +67,12 @@ def jac_job(job):
     tally = decide.Tally()
     solver = job.get('solver', 'euler')
     skw = {} if solver == 'default' else dict(solver=solver)     # 'default': the solver keyword is omitted in both calls
+    # optional extrinsic input: samples are fingerprinted so that the array argument becomes symbols U_k
+    inp = job.get('inputs')
+    in_table = {}
+    if inp:
+        base = [F(2 * i + 1281, 64) for i in range(3)]
+        skw['inputs'] = {inp: np.array([float(b) for b in base])}
     try:
         c_run = tv.compile_template(build_python(spec), vectorize=False, step_size=float(DT), **skw)
         c_jac = tv.compile_template(build_python(spec), vectorize=False, step_size=float(DT), kind='jac',
@@ -93,6 +99,11 @@ def jac_job(job):
     syms = tvspec.Symbols(spec)
     adaptive = solver not in ('euler', 'default')
     t = symx.real('t')
+    if inp:
+        for i, b in enumerate(base):
+            in_table[b] = symx.real(f"U_{i}")
+        # the input is read at a concrete time: step 1 (fixed step) / t = 0.3 inside the first sampling interval
+        t = symx.val(F(3, 10)) if adaptive else 1
     y = symx.symarray('y', ny)
     H = [symx.UF(f"Hist{i}", 1) for i in range(ny)]
     time = t if adaptive else t * symx.val(DT)
@@ -109,12 +120,12 @@ def jac_job(job):
         return SArr([Sym(H[i](te)) for i in range(ny)])
     symx.Ctx.cur = symx.Ctx()
     try:
-        b1 = tv.Binding(syms.table)
+        b1 = tv.Binding({**syms.table, **in_table})
         yd = SArr([Dual(y[j], {('y', j): symx.val(1)}) for j in range(ny)])
         sargs = tv.bind_args(c_run, b1, yd, t, hist=hist_dual)
         f, _ = tv.load_python(c_run, b1)
         dy = np.asarray(f(*sargs), dtype=object).reshape(-1)
-        b2 = tv.Binding(syms.table)
+        b2 = tv.Binding({**syms.table, **in_table})
         jargs = tv.bind_args(c_jac, b2, y, t, hist=hist_plain)
         jf, _ = tv.load_python(c_jac, b2)
         J = jf(*jargs)
@@ -270,6 +281,9 @@ def run(tier='quick', seed=0, only=None, verbose=False):
         jobs.append(dict(key=f"{k}|euler", spec=s, solver='euler'))
         if hash(k) % 3 == 0 or tier == 'thorough':
             jobs.append(dict(key=f"{k}|sparse", spec=s, solver='euler', sparse=True))
+    for pi_, (k, s) in enumerate(progs[:4 if tier == 'quick' else 40]):
+        for solver in ('euler', 'scipy'):
+            jobs.append(dict(key=f"{k}|{solver}|input", spec=s, solver=solver, inputs=['q/o1/u', 'p/nl/r_in'][pi_ % 2]))
     for di, (k, s) in enumerate(dde):
         jobs.append(dict(key=f"{k}|scipy", spec=s, solver='scipy'))
         if di % 2 == 0 or tier == 'thorough':
